@@ -124,20 +124,24 @@ def firstScalarPass (A : CRS K) (p : Params K) (n : Nat) (getApp : Bool) (scratc
 
 def rowW (rs : List (RowOut K)) (ip : Nat) : Array K := (rs.getD ip ⟨#[], 0⟩).w
 
-/-- `init(K, bprm, true_type)`: scalar input, run-time `block_size`; `none` = the `precondition` on `weights.size()`.
-`fpp` has `n` columns here (`N` in `cpr`). -/
-def initScalar (A : CRS K) (p : Params K) : Option (State K) :=
+/-- the object `init(K, bprm, true_type)` builds (scalar input, run-time `block_size`) once the `precondition` has
+passed.  `fpp` has `n` columns here (`N` in `cpr`). -/
+def scalarState (A : CRS K) (p : Params K) : State K :=
   let n := A.nrows
   let N := if p.activeRows = 0 then n else p.activeRows
-  if !(p.weights.isEmpty || p.weights.size == N) then none else
   let np := N / p.B
   let rs := (firstScalarPass A p n true (Acc.zero p.B)).1
-  some { n := n, np := np,
-         Fpp := fppOf p.B np n (rowW rs),
-         Scatter := scatterOf p.B n np,
-         App := { ncols := np, rows := Array.ofFn (n := np) (fun ip => appRow A p.B N ip.val (rowW rs ip.val)) },
-         appWidths := rs.map (·.cnt),
-         AS := A, uninit := false, zeroPivot := false }
+  { n := n, np := np,
+    Fpp := fppOf p.B np n (rowW rs),
+    Scatter := scatterOf p.B n np,
+    App := { ncols := np, rows := Array.ofFn (n := np) (fun ip => appRow A p.B N ip.val (rowW rs ip.val)) },
+    appWidths := rs.map (·.cnt),
+    AS := A, uninit := false, zeroPivot := false }
+
+/-- `init(K, bprm, true_type)`; `none` = the `precondition` on `weights.size()` throws -/
+def initScalar (A : CRS K) (p : Params K) : Option (State K) :=
+  let N := if p.activeRows = 0 then A.nrows else p.activeRows
+  if !(p.weights.isEmpty || p.weights.size == N) then none else some (scalarState A p)
 
 /-- the generic constructor `cpr_drs(const Matrix &K, …)`: copy, `sort_rows`, `init` -/
 def initScalarCopy (A : CRS K) (p : Params K) : Option (State K) := initScalar (sortRows A) p
@@ -177,22 +181,26 @@ def blockDelta (p : Params K) (i k : Nat) (a : Acc K) : K :=
 def blockW (A : CRS (Blk K)) (p : Params K) (np i : Nat) : Array K :=
   Array.ofFn (n := p.B) (fun k => blockDelta p i k.val (blockAcc A p.B np i))
 
-/-- `init(K, bprm, false_type)`: `n` block rows, `N = active_rows ? active_rows : n` block rows active; `AS` is kept in
-expanded scalar form; `App` keeps the stored blocks with column `< np` -/
-def initBlock (A : CRS (Blk K)) (p : Params K) : Option (State K) :=
+/-- the object `init(K, bprm, false_type)` builds: `n` block rows, `N = active_rows ? active_rows : n` block rows active;
+`AS` is kept in expanded scalar form; `App` keeps the stored blocks with column `< np` -/
+def blockState (A : CRS (Blk K)) (p : Params K) : State K :=
   let n := A.nrows
   let N := if p.activeRows = 0 then n else p.activeRows
-  if !(p.weights.isEmpty || p.weights.size == N * p.B) then none else
   let np := N
   let B := p.B
-  some { n := n * B, np := np,
-         Fpp := fppOf B np (np * B) (blockW A p np),
-         Scatter := scatterOf B (np * B) np,
-         App := { ncols := np,
-                  rows := Array.ofFn (n := np) (fun i => ((A.row i.val).filter (fun cv => decide (cv.1 < np))).map (fun cv =>
-                    (cv.1, (List.range B).foldl (fun a k => a + (blockW A p np i.val).getD k 0 * cv.2.getD (k * B) 0) 0))) },
-         appWidths := (List.range np).map (fun i => ((A.row i).filter (fun cv => decide (cv.1 < np))).length),
-         AS := expand B A, uninit := false, zeroPivot := false }
+  { n := n * B, np := np,
+    Fpp := fppOf B np (np * B) (blockW A p np),
+    Scatter := scatterOf B (np * B) np,
+    App := { ncols := np,
+             rows := Array.ofFn (n := np) (fun i => ((A.row i.val).filter (fun cv => decide (cv.1 < np))).map (fun cv =>
+               (cv.1, (List.range B).foldl (fun a k => a + (blockW A p np i.val).getD k 0 * cv.2.getD (k * B) 0) 0))) },
+    appWidths := (List.range np).map (fun i => ((A.row i).filter (fun cv => decide (cv.1 < np))).length),
+    AS := expand B A, uninit := false, zeroPivot := false }
+
+/-- `init(K, bprm, false_type)`; `none` = the `precondition` on `weights.size()` throws -/
+def initBlock (A : CRS (Blk K)) (p : Params K) : Option (State K) :=
+  let N := if p.activeRows = 0 then A.nrows else p.activeRows
+  if !(p.weights.isEmpty || p.weights.size == N * p.B) then none else some (blockState A p)
 
 def initBlockCopy (A : CRS (Blk K)) (p : Params K) : Option (State K) := initBlock (sortRows A) p
 
